@@ -414,6 +414,10 @@ impl<VM: VMBinding> MarkCompactSpace<VM> {
     pub fn compact(&self) {
         let mut to = Address::ZERO;
         for (from_start, size) in self.pr.iterate_allocated_regions() {
+            if to.is_zero() {
+                // If no object survives, everything from the start of the first region is free.
+                to = from_start;
+            }
             let from_end = from_start + size;
             for obj in self.linear_scan_objects(from_start..from_end) {
                 let copied_size = VM::VMObjectModel::get_size_when_copied(obj);
